@@ -100,6 +100,10 @@ pub(crate) mod zip_writer {
         pub(super) writing_to_extra_field: bool,
         pub(super) writing_to_central_extra_field_only: bool,
         pub(super) writing_raw: bool,
+        /// A `flush` of the current entry failed part-way. It is completed before anything else is
+        /// asked of the entry's compressor: libbz2 accepts nothing but the rest of a flush it has
+        /// begun, and `BzEncoder` answers anything else by panicking or by never returning.
+        pub(super) flush_incomplete: bool,
         pub(super) comment: Vec<u8>,
     }
 }
@@ -232,6 +236,9 @@ impl<W: Write + io::Seek> Write for ZipWriter<W> {
                 "No file has been started",
             ));
         }
+        if !self.writing_to_extra_field {
+            self.complete_flush()?;
+        }
         match self.inner.ref_mut() {
             Some(ref mut w) => {
                 if self.writing_to_extra_field {
@@ -262,12 +269,29 @@ impl<W: Write + io::Seek> Write for ZipWriter<W> {
 
     fn flush(&mut self) -> io::Result<()> {
         match self.inner.ref_mut() {
-            Some(ref mut w) => w.flush(),
+            Some(ref mut w) => {
+                let flushed = w.flush();
+                self.flush_incomplete = flushed.is_err();
+                flushed
+            }
             None => Err(io::Error::new(
                 io::ErrorKind::BrokenPipe,
                 "ZipWriter was already closed",
             )),
         }
+    }
+}
+
+impl<W: Write + io::Seek> ZipWriter<W> {
+    /// Completes a `flush` that failed part-way (see `flush_incomplete`).
+    fn complete_flush(&mut self) -> io::Result<()> {
+        if self.flush_incomplete {
+            if let Some(w) = self.inner.ref_mut() {
+                w.flush()?;
+            }
+            self.flush_incomplete = false;
+        }
+        Ok(())
     }
 }
 
@@ -316,6 +340,7 @@ impl<A: Read + Write + io::Seek> ZipWriter<A> {
             writing_to_central_extra_field_only: false,
             comment: footer.zip_file_comment,
             writing_raw: true, // avoid recomputing the last file's header
+            flush_incomplete: false,
         })
     }
 }
@@ -333,6 +358,7 @@ impl<W: Write + io::Seek> ZipWriter<W> {
             writing_to_extra_field: false,
             writing_to_central_extra_field_only: false,
             writing_raw: false,
+            flush_incomplete: false,
             comment: Vec::new(),
         }
     }
@@ -440,6 +466,7 @@ impl<W: Write + io::Seek> ZipWriter<W> {
             // Implicitly calling [`ZipWriter::end_extra_data`] for empty files.
             self.end_extra_data()?;
         }
+        self.complete_flush()?;
         self.inner.switch_to(CompressionMethod::Stored, None)?;
         match core::mem::replace(&mut self.inner, GenericZipWriter::Closed) {
             GenericZipWriter::Storer(MaybeEncrypted::Encrypted(writer)) => {
